@@ -202,3 +202,16 @@ package options
 //@   tags C18
 //@   loop 1 invariant -1 <= rangeindex && rangeindex < len(submaps)
 //@   loop 1 invariant len(submaps) == 0 ==> target == old(target)
+
+// ---- validation.go: an accepted option spec has pairwise distinct option names (C18: "for an accepted option spec") -------------
+// per-option checks (types, names, defaults against allowed values): ASSUMED total here
+//@ extern func ValidateOption
+//@   params option, fldPath
+//@   fresh result
+//@ func ValidateOptionSpec
+//@   tags C18, C17
+//@   loop 1 invariant -1 <= rangeindex && rangeindex < len(spec.Options) && optionNames != nil && fresh(optionNames) && len(allErrs) >= 0
+//@   loop 1 invariant len(allErrs) == 0 ==> (forall k int :: {spec.Options[k]} 0 <= k && k <= rangeindex ==> (spec.Options[k].Name in optionNames))
+//@   loop 1 invariant forall n string :: (n in optionNames) ==> (exists k int :: 0 <= k && k <= rangeindex && spec.Options[k].Name == n)
+//@   loop 1 invariant len(allErrs) == 0 ==> (forall a int, b int :: 0 <= a && a < b && b <= rangeindex ==> spec.Options[a].Name != spec.Options[b].Name)
+//@   ensures [C18,C17] accepted-spec-has-distinct-option-names: spec != nil && len(result) == 0 ==> distinctNames(spec.Options)
